@@ -76,7 +76,9 @@ GenPatterns(n, acc, s) == IF n = 0 THEN G(acc, s)
 CapsOf(scope, k) == SelectSeq(scope, LAMBDA c : c.k = k)
 Lit(ty, s) == CASE ty = "int"   -> [n |-> "int", v |-> <<0, 1, 2, 3, 5, 7, 10, 20, -1, -4>>[Ch(s, 10)]]
                 [] ty = "float" -> [n |-> "float", v |-> << <<1,2>>, <<3,2>>, <<2,1>>, <<1,4>>, <<5,2>>, <<-3,2>>, <<10,1>> >>[Ch(s, 7)]]
-                [] OTHER        -> [n |-> "str", v |-> << <<"a">>, <<"f","o","o">>, <<"B","a","Z">>, <<>>, <<"x","_","y">>, <<"4","2">> >>[Ch(s, 6)]]
+                [] OTHER        -> IF Profile = "fmt" /\ Coin(s, 1, 3)
+                                   THEN [n |-> "str", v |-> << <<"q","\"","r">>, <<"b","\\","s">>, <<"\"">>, <<"e","n","d","\\">> >>[Ch(s, 4)]]
+                                   ELSE [n |-> "str", v |-> << <<"a">>, <<"f","o","o">>, <<"B","a","Z">>, <<>>, <<"x","_","y">>, <<"4","2">> >>[Ch(s, 6)]]
 NzLit(ty, s) == CASE ty = "int" -> [n |-> "int", v |-> <<1, 2, 3, 5, 7, -2>>[Ch(s, 6)]]
                   [] OTHER      -> [n |-> "float", v |-> << <<2,1>>, <<1,2>>, <<4,1>> >>[Ch(s, 3)]]
 CapRef(c, s) == [n |-> "cap", p |-> c.p, g |-> Abs(c.g), byname |-> (c.name # "" /\ (c.g < 0 \/ Coin(s, 1, 2))), name |-> c.name]
@@ -415,37 +417,48 @@ GenCase(seed) ==
       \* every metric gets a (never executed) typed write FIRST - before the decorator definitions too - so
       \* that the compiler's inference of the declared value type does not depend on statement order
       pre == [i \in 1..Len(decls0) |-> TypingStmt(decls0[i])]
-      decls == [i \in 1..Len(decls0) |-> [name |-> decls0[i].name, kind |-> decls0[i].kind, keys |-> decls0[i].keys,
+      declsA == [i \in 1..Len(decls0) |-> [name |-> decls0[i].name, kind |-> decls0[i].kind, keys |-> decls0[i].keys,
                                           ty |-> decls0[i].ty, hidden |-> Coin(Rnd(bd.s) + i, 1, 6)]]
+      \* formatter profile (C23): exported names, limits and a histogram with small boundaries
+      declsF == [i \in 1..Len(decls0) |-> [name |-> decls0[i].name, kind |-> decls0[i].kind, keys |-> decls0[i].keys,
+                                          ty |-> decls0[i].ty, hidden |-> Coin(Rnd(bd.s) + i, 1, 3),
+                                          as |-> IF Coin(Rnd(bd.s) + 3 * i, 1, 2) THEN "x-" \o decls0[i].name ELSE "",
+                                          limit |-> IF decls0[i].keys # <<>> /\ Coin(Rnd(bd.s) + 5 * i, 1, 2) THEN 100 * Ch(Rnd(bd.s) + i, 9) ELSE 0]]
+                \o << [name |-> "hs", kind |-> "histogram", keys |-> <<>>, ty |-> "float", hidden |-> FALSE, as |-> "", limit |-> 0,
+                       buckets |-> << << <<0,1>>, <<1,10000000>>, <<1,1000>>, <<5,2>> >>,
+                                      << <<-2,1>>, <<0,1>>, <<1,4>>, <<1,1>>, <<1000000,1>> >>,
+                                      << <<1,8>>, <<3,8>>, <<123456789,1000>> >> >>[Ch(Rnd(bd.s), 3)]] >>
+      decls == IF Profile = "fmt" THEN declsF ELSE declsA
+      hsuse == IF Profile = "fmt" THEN << [n |-> "expr", e |-> [n |-> "assign", m |-> "hs", idx |-> <<>>, r |-> Lit("float", Rnd(bd.s))]] >> ELSE <<>>
       ls == GenLines(ps.x, 2 + Ch(bd.s, 4), <<>>, Rnd(Rnd(bd.s)))
-  IN [prog |-> [decls |-> decls, pre |-> pre, decos |-> decos, body |-> body0, pats |-> ps.x], lines |-> ls.x]
+  IN [prog |-> [decls |-> decls, pre |-> pre, decos |-> decos, body |-> body0 \o hsuse, pats |-> ps.x], lines |-> ls.x]
 
 -----------------------------------------------------------------------------
 (* State machine: one behaviour per seed, one step per line *)
-VARIABLES seed, prog, lines, i, mem, hist
-vars == <<seed, prog, lines, i, mem, hist>>
+VARIABLES seed, prog, lines, ln, mem, hist
+vars == <<seed, prog, lines, ln, mem, hist>>
 
 Init == /\ seed \in (IF SeedSet # {} THEN SeedSet ELSE SeedLo..SeedHi)
         /\ LET c == GenCase(seed) IN prog = c.prog /\ lines = c.lines
-        /\ i = 0 /\ mem = InitMem(prog) /\ hist = <<>>
+        /\ ln = 0 /\ mem = InitMem(prog) /\ hist = <<>>
 
-Step == /\ i < Len(lines)
-        /\ LET r == ExecLine(prog, mem, lines[i + 1].toks, lines[i + 1].file, i + 1) IN
+Step == /\ ln < Len(lines)
+        /\ LET r == ExecLine(prog, mem, lines[ln + 1].toks, lines[ln + 1].file, ln + 1) IN
            /\ mem' = [m |-> r.m, memo |-> r.memo]
            /\ hist' = Append(hist, [m |-> r.m, err |-> r.err, ovf |-> r.ovf])
-        /\ i' = i + 1
+        /\ ln' = ln + 1
         /\ UNCHANGED <<seed, prog, lines>>
 Next == Step
 Spec == Init /\ [][Next]_vars
 
 \* C05 at the model level: what a line does may depend on the metrics but not on the strptime memo left behind by
 \* earlier lines (true for the corrected design; each DEV_Memo* switch yields a counterexample)
-MemoFree == i < Len(lines) =>
-              LET a == ExecLine(prog, mem, lines[i + 1].toks, lines[i + 1].file, i + 1)
-                  b == ExecLine(prog, [mem EXCEPT !.memo = <<>>], lines[i + 1].toks, lines[i + 1].file, i + 1)
+MemoFree == ln < Len(lines) =>
+              LET a == ExecLine(prog, mem, lines[ln + 1].toks, lines[ln + 1].file, ln + 1)
+                  b == ExecLine(prog, [mem EXCEPT !.memo = <<>>], lines[ln + 1].toks, lines[ln + 1].file, ln + 1)
               IN a.m = b.m /\ a.err = b.err
 
-Emit == (i = Len(lines)) =>
+Emit == (ln = Len(lines)) =>
           PrintT(<<"CASE", ToJson([seed |-> seed, profile |-> Profile, prog |-> prog, lines |-> lines, exp |-> hist,
                                    mt |-> [p \in 1..Len(prog.pats) |-> [l \in 1..Len(lines) |-> Match(prog.pats[p], lines[l].toks)]]])>>)
 =============================================================================
